@@ -4,7 +4,7 @@
     (trusted base): transactions are atomic, and durable once Commit returned. *)
 From Coq Require Import List NArith Bool Arith.
 From Atlas Require Import Base.Bytes Base.Stutter Exec.ExecModel Exec.ExecProofs Exec.StepProofs Exec.PendingModel Exec.PendingProofs
-  Exec.RunModel Exec.TxModel Exec.TxProofs Exec.RunProofs Exec.CrashProofs Exec.CrashStoreModel Exec.CrashStoreProofs Exec.LockModel Exec.LockProofs.
+  Exec.RunModel Exec.TxModel Exec.TxProofs Exec.RunProofs Exec.CrashProofs Exec.CrashStoreModel Exec.CrashStoreProofs Exec.LockModel Exec.LockProofs Exec.TxOrderModel Exec.TxOrderProofs.
 Import ListNotations.
 
 Section C10.
@@ -509,4 +509,66 @@ Example C10_lock_nonvacuous :
   (match concurrent_apply bytes bytes_eqb (fun b => b) 0%N 100%N 50%N 100%N BeforeExec 2 0 ex_dir ex_db0 with
    | Some (oA, oB, (l, d)) => oA = CRan ADone /\ oB = CLockTaken /\ l = None /\ d_journal d = [s 1; s 2; s 3]
    | None => False end).
+Proof. vm_compute. repeat split; reflexivity. Qed.
+
+(** ** Round 5: --exec-order (Exec/TxOrderModel.v: the command with the order Pending uses as a parameter) *)
+Section C10order.
+Variable hash : Type.
+Variable hash_eqb : hash -> hash -> bool.
+Variable HS : bytes -> hash.
+
+(** With the default order the command is the [apply_run] of all theorems above. *)
+Theorem C10_order_linear_is_apply_run :
+  forall g n dir (c : db hash),
+  apply_run_ord hash hash_eqb HS Linear g n dir c = apply_run hash hash_eqb HS g n dir c.
+Proof. exact (apply_run_ord_linear hash hash_eqb HS). Qed.
+
+(** For EVERY execution order the command either stops in Pending (nothing touched, no crash
+    point) or is the loop of migrateApplyRun over files of the directory -- those Pending chose
+    under that order, cut to the count -- from the state it found, plus the final commit of an
+    open `all` transaction: the crashed-state theorems stated on the loop
+    (C10_file_never_half_applied, C10_none_prefix via run_direct) hold for linear-skip and
+    non-linear as they are. NOT proved for these orders (partial): that the re-run completes
+    (C10_rerun_completes assumes the linear resume invariant); tied on the real CLI instead. *)
+Theorem C10_order_run_is_loop_partial :
+  forall ord g n dir (c : db hash) o c' tr,
+  apply_run_ord hash hash_eqb HS ord g n dir c = (o, c', tr) ->
+  (exists p, o = APend p /\ c' = c /\ tr = [] /\
+             fst (pending (mkCfg ord None true true) (map tf_file dir) (read_revisions hash (d_tbl c))) = p /\
+             forall fs, p <> PFiles fs) \/
+  (exists ps files o1 c1 w tr1,
+     fst (pending (mkCfg ord None true true) (map tf_file dir) (read_revisions hash (d_tbl c))) = PFiles ps /\
+     files = chosen_tfiles dir (if 0 <? n then firstn n ps else ps) /\ incl files dir /\
+     apply_loop hash hash_eqb HS g files c None = (o1, c1, w, tr1) /\
+     ((o1 = ADone /\ exists wd, w = Some wd /\ o = ADone /\ c' = wd /\
+                                tr = tr1 ++ [(BeforeCommit, c1); (AfterCommit, wd)]) \/
+      ((o1 <> ADone \/ w = None) /\ o = o1 /\ c' = c1 /\ tr = tr1))).
+Proof. exact (apply_run_ord_is_loop hash hash_eqb HS). Qed.
+
+End C10order.
+Print Assumptions C10_order_linear_is_apply_run.
+Print Assumptions C10_order_run_is_loop_partial.
+
+(** Non-vacuity (the scenario of the c10ord cases): 1 and 3 applied, the older file 2 (three
+    statements) and 4 added; non-linear, tx-mode none, killed after the 2nd statement of file 2:
+    its revision is partial (1 of 3) without error; the re-run resumes it at statement 2 (the
+    one in flight runs twice) and goes on with 4; linear-skip never runs file 2. *)
+Definition ord_dir0 : list tfile :=
+  [ mkTfile (mkFile [49%N] [s 1] false) None None; mkTfile (mkFile [51%N] [s 2] false) None None ].
+Definition ord_dir : list tfile :=
+  [ mkTfile (mkFile [49%N] [s 1] false) None None; mkTfile (mkFile [50%N] [s 3; s 4; s 5] false) None None;
+    mkTfile (mkFile [51%N] [s 2] false) None None; mkTfile (mkFile [52%N] [s 6] false) None None ].
+Example C10_order_nonvacuous :
+  let '(_, d0, _) := apply_run bytes bytes_eqb (fun b => b) TxNone 0 ord_dir0 ex_db0 in
+  let '(_, _, tr) := apply_run_ord bytes bytes_eqb (fun b => b) NonLinear TxNone 0 ord_dir d0 in
+  match crash_state bytes tr AfterExec 2 with
+  | Some d =>
+      d_journal d = [s 1; s 2; s 3; s 4] /\
+      map (fun r => (r_applied r, r_total r, r_err r)) (read_revisions bytes (d_tbl d)) = [(1, 1, false); (1, 3, false); (1, 1, false)] /\
+      (let '(o2, c2, _) := apply_run_ord bytes bytes_eqb (fun b => b) NonLinear TxNone 0 ord_dir d in
+       o2 = ADone /\ d_journal c2 = [s 1; s 2; s 3; s 4; s 4; s 5; s 6]) /\
+      (let '(o3, c3, _) := apply_run_ord bytes bytes_eqb (fun b => b) LinearSkip TxNone 0 ord_dir d0 in
+       o3 = ADone /\ d_journal c3 = [s 1; s 2; s 6])
+  | None => False
+  end.
 Proof. vm_compute. repeat split; reflexivity. Qed.
